@@ -12,21 +12,6 @@ import (
 // Check can be used to validate the relationships between the types.
 type Schema struct {
 	Types []Type
-
-	// Rels stores the relationships found in the schema's types. For
-	// two-way relationships, only one is chosen to be part of this
-	// map. The chosen one is the one that comes first when sorting
-	// both relationships in alphabetical order using the type name
-	// first and then the relationship name.
-	//
-	// For example, a type called Directory has a Parent relationship
-	// and a Children relationship. Both relationships have the same
-	// type (Directory), so now the name is used for sorting. Children
-	// comes before Parent, so the relationship Children from type
-	// Directory is stored here. The other one is not stored to avoid
-	// duplication (the information is already accessible through the
-	// inverse relationship).
-	rels map[Rel]struct{}
 }
 
 // AddType adds a type to the schema.
@@ -160,10 +145,12 @@ func (s *Schema) AddTwoWayRel(rel Rel) error {
 // relationships (two types where each has a relationship pointing to the other
 // type), only one of the two relationships will appear in the list.
 func (s *Schema) Rels() []Rel {
-	s.buildRels()
+	// The set is local to the call: nothing is stored in the schema, so a
+	// built schema can be read from several goroutines at once.
+	set := s.buildRels()
 
-	rels := make([]Rel, 0, len(s.rels))
-	for rel := range s.rels {
+	rels := make([]Rel, 0, len(set))
+	for rel := range set {
 		rels = append(rels, rel)
 	}
 
@@ -273,8 +260,19 @@ func (s *Schema) Check() []error {
 
 // buildRels builds the set of normalized relationships that is returned by
 // Schema.Rels.
-func (s *Schema) buildRels() {
-	s.rels = map[Rel]struct{}{}
+//
+// For two-way relationships, only one is chosen to be part of the set. The
+// chosen one is the one that comes first when sorting both relationships in
+// alphabetical order using the type name first and then the relationship name.
+//
+// For example, a type called Directory has a Parent relationship and a
+// Children relationship. Both relationships have the same type (Directory), so
+// now the name is used for sorting. Children comes before Parent, so the
+// relationship Children from type Directory is kept. The other one is left out
+// to avoid duplication (the information is already accessible through the
+// inverse relationship).
+func (s *Schema) buildRels() map[Rel]struct{} {
+	set := map[Rel]struct{}{}
 
 	for _, typ := range s.Types {
 		for _, rel := range typ.Rels {
@@ -282,7 +280,9 @@ func (s *Schema) buildRels() {
 			// Rel.String is not usable as a key: it joins the names
 			// with underscores, which names may contain, so two
 			// different relationships can have the same string.
-			s.rels[rel.Normalize()] = struct{}{}
+			set[rel.Normalize()] = struct{}{}
 		}
 	}
+
+	return set
 }
